@@ -11,6 +11,13 @@ func init() {
 	extraGens["C16"] = (*Gen).genC16
 	extraGens["C19"] = (*Gen).genC19
 	extraGens["FRZ"] = (*Gen).genFrozen
+	extraGens["C09"] = func(g *Gen, n int) error {
+		g.dumpfiles = true
+		if n == 0 {
+			n = g.tierN(60, 1200)
+		}
+		return g.genFrozen(n)
+	}
 }
 
 // genFrozen: scripts whose files are written once by the pinned release and kept
@@ -38,6 +45,9 @@ func (g *Gen) genFrozen(n int) error {
 			g.newBuilt(s, b)
 			f := g.fresh("f")
 			g.emit("persist %s %s", s, f)
+			if g.dumpfiles {
+				g.emit("dumpfile %s", f)
+			}
 			g.emit("footer %s mode=%d docs=%d", f, m, len(b.Docs))
 			o := g.fresh("o")
 			g.emit("open %s %s", o, f)
@@ -61,6 +71,9 @@ func (g *Gen) genFrozen(n int) error {
 		}
 		mf := g.fresh("f")
 		g.emit("merge %s segs=%s drops=%s", mf, strList(opened), strings.Join(drops, "|"))
+		if g.dumpfiles {
+			g.emit("dumpfile %s", mf)
+		}
 		mm := g.fresh("m")
 		g.emit("open %s %s", mm, mf)
 		g.univ[mm] = u
@@ -73,6 +86,9 @@ func (g *Gen) genFrozen(n int) error {
 			d2 = "0"
 		}
 		g.emit("merge %s segs=%s drops=%s", mf2, mm, d2)
+		if g.dumpfiles {
+			g.emit("dumpfile %s", mf2)
+		}
 		m2 := g.fresh("m")
 		g.emit("open %s %s", m2, mf2)
 		g.univ[m2] = u
